@@ -408,7 +408,7 @@ fn random_mode(args: &std::collections::HashMap<String, String>) {
             }
             let mut after = tla_tree(&project(&obj));
             if corrupt && ops == 17 {
-                after = json!([]);
+                after = json!({"T": {"vr": "ZZ", "k": "Text", "v": ["corrupted"], "items": []}});
             }
             w.emit(&json!({"ev": "op", "sel": sel, "act": act, "ok": ok, "panic": res.is_err(), "before": before, "tree": after}));
         }
@@ -481,11 +481,9 @@ fn main() {
             }
             let mut got = project(&obj);
             if selftest && si == 0 && ci % 7 == 3 {
-                // deliberately wrong projection: drop the first attribute
+                // deliberately wrong projection: an attribute that is not there
                 if let Value::Object(m) = &mut got {
-                    if let Some(k) = m.keys().next().cloned() {
-                        m.remove(&k);
-                    }
+                    m.insert("N".into(), json!({"vr": "ZZ", "k": "Text", "v": ["selftest"], "items": []}));
                 }
             }
             distinct.insert(format!("{}|{}", before, op_text(step)));
